@@ -27,7 +27,7 @@ from checks import C01
 THEOREMS = ["C02_prims_are_source", "C02_total_source", "C02_source_never_panics", "C02_parse_is_source", "C02_total_lib_parse", "C02_lib_parse_never_panics", "C02_parse_spec", "C02_total", "C02_total_checked", "C02_linear", "C02_linear_checked", "C02_work_is_tree_size", "C02_terminates", "C02_terminates_checked", "C02_errors_wellformed",
             "C02_token_stream_total", "C02_reachable_states_tile"]
 TRUSTED = [
-    "tie of lexer.rs / preprocessor.rs / parser.rs: TRANSLATION + PROOF -- tools/translate/{t_lexer,t_prep,t_parser}.py render every function of the three files (shallow state-monad embedding, coq/model/{ScanMonad,PrepMonad,ParserMonad}.v = contracts of unscanny, Rust std, rowan GreenNodeBuilder) into gen/Gen{Lexer,Prep,Parser}.v on every run; proofs/Gen{Lexer,Prep,Parser}Eq.v prove the rendering equal to the hand models for all states/texts (C0x_prims_are_source); trusted for these files are therefore the translators and the three monad files, no longer the hand models Lexer.v / Prep.v / ParserPrims.v (still cross-checked by the differential run)",
+    "tie of lexer.rs / preprocessor.rs / parser.rs: TRANSLATION + PROOF -- tools/translate/{t_lexer,t_prep,t_parser}.py render every function of the three files (shallow state-monad embedding, coq/model/{ScanMonad,PrepMonad,ParserMonad}.v = contracts of unscanny, Rust std, rowan GreenNodeBuilder) into gen/Gen{Lexer,Prep,Parser}.v on every run; proofs/Gen{Lexer,Prep,Parser}Eq.v prove the rendering equal to the hand models for all states/texts (C0x_prims_are_source); trusted for these files are therefore the translators and the three monad files, no longer the hand models Lexer.v / Prep.v / ParserPrims.v (still cross-checked by the differential run); crates/syntax/src/lib.rs (`parse`, struct Parse and its accessors, Language::kind_from_raw/kind_to_raw) is rendered by t_libglue.py into gen/GenLibGlue.v over model/LibGlueApi.v and proved to be gparse_with (GenLibGlueEq.v, *_parse_is_source / *_lib_parse*)",
     "Coq 8.16.1 kernel; vm_compute for the reflective obligations on the regenerated grammar (chk_all, bchk_all, prog_msgs_ok); no axioms (Print Assumptions: closed under the global context)",
     "hand-written models coq/model/{Chars,Lexer,Prep,ParserPrims,Tree}.v of lexer.rs / preprocessor.rs / parser.rs and of rowan's GreenNodeBuilder incl. its assertions (start_node_at checkpoint bounds, finish_node on an empty stack, finish with other than one child), tied to the code by the correspondence run of this check (tree and error list)",
     "translator tools/translate/t_grammar.py (+ t_tokens, t_lextables, t_unicode); the certificate generator tools/cert_grammar.py is NOT trusted (its output is re-checked inside Coq)",
